@@ -29,6 +29,9 @@ HOSTILE = ["'); canary(); ('", '"\ncanary()\n"', "__import__('os')", '{canary()}
 # that treats non-ASCII constants separately from ASCII ones)
 HOSTILE += ["caf\u00e9' if canary() else 0)): #", "\u00e9'+canary()+'", "\u2603'); canary(); ('", "\u00e9' if canary() else 0), [])): #",
             "\u00e9', [canary()])): #", "\U0001f600' or canary())): #", "\u00e9\\' if canary() else 0)): #", '\u00e9" if canary() else 0)): #']
+COOKIES = ['coding:utf-7', 'coding=utf-7', 'coding: utf_7', '-*- coding: utf-7 -*-', 'vim: set fileencoding=utf-7 :', 'coding:utf-16', 'coding:cp037']
+UTF7_PAYLOADS = ['a+ACc-)+canary()+(+ACc-b', 'a+ACc- if canary() else +ACc-b', 'a+ACcAKQApADoACg-  canary()+AAo-  for _ in query(+ACc-x+ACc-,[atom(+ACc-b',
+                 '+AAo-canary()+AAo-', 'a+ACc-, canary(), +ACc-b', 'plain']
 INTERNAL_MARKERS = ['$CUTIF']      # names the code generator uses internally (read off yp_generator.py)
 
 
@@ -182,10 +185,23 @@ class C12(Prop):
             else:
                 clauses.append('z(%s, %s) :- %s = %s.' % (q(h), src.pick(['1', '007', 'X']), q(self.hostile(src)), q(h)))
                 positions.append('argument')
-        return {'text': '\n'.join(clauses) + '\n', 'positions': positions}
+        case = {'text': '\n'.join(clauses) + '\n', 'positions': positions}
+        if src.n(5) == 2:
+            # the program also goes through the command line (with debug options) into a FILE that is then loaded with
+            # load_script_from_file: debug comments carry source text into that file
+            case['file_route'] = src.pick([['--debug-generator'], ['--debug-generator', '--debug-parser'], [], ['--debug-parser'],
+                                           ['--debug-generator', '--debug-parser', '--debug-filename'], ['-d']])
+            if src.n(2):
+                # text that a reader of the FILE could take for an encoding declaration, and a payload in that encoding
+                cookie = src.pick(COOKIES)
+                payload = src.pick(UTF7_PAYLOADS)
+                first = src.pick(['x(%s, %s).', 'x(%s) :- y(%s).', 'x(%s(%s)).']) % (q(cookie), q(payload))
+                case['text'] = first + '\n' + (case['text'] if src.n(3) == 0 else '')
+                case['positions'] = ['encoding-cookie'] + (positions if case['text'].count('\n') > 1 else [])
+        return case
 
     def case_key(self, case):
-        return case['text'] if 'text' in case else 'query %r/%d' % (case['query'], case['arity'])
+        return (case['text'] + repr(case.get('file_route') or '')) if 'text' in case else 'query %r/%d' % (case['query'], case['arity'])
 
     def shrink_candidates(self, case):
         if 'text' not in case:
@@ -284,8 +300,70 @@ class C12(Prop):
             if called:
                 detail['function'] = name
                 return FAIL('canary-called-at-run-time', detail)
+        if case.get('file_route') is not None:
+            r = self.file_route(text, case['file_route'], sorted(set(defs)), detail)
+            if r is not None:
+                return r
+            classes = classes + ['file-route:' + (' '.join(case['file_route']) or 'no-debug-options')]
         risky = any(ch in text for ch in ('"', '\n', '(', ')', ':', "\\'")) and any(p != 'argument' for p in classes)
         return OK(risky, classes + ['accepted'])
+
+    def file_route(self, text, flags, defs, detail):
+        """command line (with debug options) -> output file -> load_script_from_file: the canary is never called, the
+        context gains exactly the definitions"""
+        import os, sys, tempfile, shutil
+        from click.testing import CliRunner
+        d = tempfile.mkdtemp(prefix='verif-c12-')
+        try:
+            srcp, outp = os.path.join(d, 'x.prolog'), os.path.join(d, 'x.py')
+            with open(srcp, 'w', encoding='utf8', newline='') as f:
+                f.write(text)
+            r = CliRunner().invoke(impl.compiler.main, list(flags) + ['-o', outp, srcp])
+            detail = dict(detail, command_line=' '.join(list(flags) + ['-o', 'x.py', 'x.prolog']))
+            if r.exit_code != 0 or not os.path.exists(outp):
+                return None          # refused on this route: nothing is asserted (C19 compares the routes)
+            called = []
+            yp = impl.BudgetYP(400)
+            impl.WORK['limit'] = 400000
+            yp.eval_context['canary'] = lambda *a, **k: (called.append(a), iter(()))[1]
+            before = set(yp.eval_context)
+            try:
+                yp.load_script_from_file(outp)
+            except Exception as e:      # noqa
+                with open(outp, 'rb') as f:
+                    detail['file_head'] = repr(f.read(400))
+                detail['error'] = '%s: %s' % (type(e).__name__, str(e)[:200])
+                return FAIL('file-route:load-raises:' + type(e).__name__, detail)
+            if called:
+                return FAIL('file-route:canary-called-at-load-time', detail)
+            added = sorted(set(yp.eval_context) - before)
+            if added != defs:
+                detail['keys_added'] = added
+                detail['definitions'] = defs
+                return FAIL('file-route:context-keys-differ-from-definitions', detail)
+            for name in defs:
+                m = re.match(r'^(.*)_(\d+)$', name, re.S)
+                args = [yp.variable() for _ in range(int(m.group(2)))]
+                yp._n = 0
+                impl.WORK['n'] = 0
+                old = sys.getrecursionlimit()
+                sys.setrecursionlimit(1200)
+                try:
+                    for i, _ in enumerate(yp.eval_context[name](*args)):
+                        if i >= 2:
+                            break
+                except (Budget, RecursionError):
+                    pass
+                except Exception:       # noqa
+                    pass
+                finally:
+                    sys.setrecursionlimit(old)
+                if called:
+                    detail['function'] = name
+                    return FAIL('file-route:canary-called-at-run-time', detail)
+            return None
+        finally:
+            shutil.rmtree(d, ignore_errors=True)
 
 
     def fuzz_campaign(self, tier, seed):
